@@ -14,7 +14,7 @@ LEVEL = "exploration"
 RULE = ("every sequence of 1..3 batches x 1..2 fresh designs per batch, n in {1,2,3} parameters, m in {1,2} objectives, per-axis tolerances "
         "from {0.5,0.25,1e-3}, four objective shapes, min and max: after EVERY batch, for EVERY design evaluated so far: 2n neighbours at "
         "+-tol, m+1 costs, sensitivity = sum |f0(x)-f0(neighbour)|, each vector evaluated once overall, earlier designs untouched, also when single objective calls fail transiently (design or neighbour re-sampled); "
-        "gradient evaluator: forward quotient with step 1e-4 (also at coordinates of magnitude 2e4..2.5e6 and with 4-6 parameters), n extra calls, work lists empty; runs: EpsMOEA/NSGA-II N in {2,3}, G in "
+        "gradient evaluator: forward quotient with step 1e-4 (also at coordinates of magnitude 2e4..1e15 (beyond 2**39 the step 1e-4 is below one ulp of the coordinate) and with 4-6 parameters), n extra calls, work lists empty; runs: EpsMOEA/NSGA-II N in {2,3}, G in "
         "{2,3} with the worst-case evaluator, every random decision/pick flipped (<=1 deviation). Non-trivial = more than one batch or "
         "more than one design; distinct = distinct case tuples / choice sequences.")
 ASSUMPTIONS = ["one evaluator instance per algorithm, as Algorithm.__init__ creates it",
@@ -140,7 +140,7 @@ def check_gradient(n, shape, crit, batches, magnitude=0.0):
     from .c_support import make_problem, reset_ids
     reset_ids()
     f = objective(shape, 1)
-    problem = make_problem(n_params=n, bounds=[[-5.0, 5.0]] * n if not magnitude else [[-1e8, 1e8]] * n, criteria=[crit], f=f)
+    problem = make_problem(n_params=n, bounds=[[-5.0, 5.0]] * n if not magnitude else [[-max(1e8, 10 * abs(magnitude)), max(1e8, 10 * abs(magnitude))]] * n, criteria=[crit], f=f)
     alg = Algorithm(problem, evaluator_type=EvaluatorType.GRADIENT)
     out = []
     desc = "gradient n=%d shape=%s crit=%s batches=%r magnitude=%r" % (n, shape, crit, batches, magnitude)
@@ -258,7 +258,7 @@ def _shard(shard, col: Collector):
                     for bs in batch_seqs:
                         rec("grad", {"n": n, "shape": shape, "crit": crit, "batches": bs}, check_gradient(n, shape, crit, bs),
                             len(bs) > 1 or bs[0] > 1)
-                    for mag in (2.0e4, 2.5e6, -3.0e5):
+                    for mag in (2.0e4, 2.5e6, -3.0e5, 7.0e11, 3.0e12, -1.0e15, 2.0 ** 39, 2.0 ** 40 + 1.0):  # beyond 2**39 the step is below one ulp
                         rec("grad", {"n": n, "shape": shape, "crit": crit, "batches": (2,), "magnitude": mag},
                             check_gradient(n, shape, crit, (2,), mag), True)
         for n in (4, 5, 6):         # more parameters, more and larger batches
